@@ -116,14 +116,22 @@ def configs(tier):
 
 def main(tier, seed, only=None):
     from harness import l2run
+
+    def extra(rep):
+        from harness import c01_threads
+        c01_threads.part(rep, tier, only=('hard',),
+                         name='thread-level-scanner-vs-result')
     return l2run.run('C05', tier, seed, configs(tier), [
         'a worker told to terminate either exits before the 0.1 s wait of '
         '_trywaitkill ends or lingers and is SIGKILLed (environment choice); '
         'that the real worker honours the signal is the L1/L3 obligation',
         '"within about one scan period" is decided as: the first scan at or '
-        'after the limit fails the job'], only)
+        'after the limit fails the job'], only, extra)
 
 
 def replay(rp):
+    if rp.get('harness') == 'c01-threads':
+        from harness import c01_threads
+        return c01_threads.replay(rp)
     from harness import l2run
     return l2run.replay('C05', rp, configs('thorough') + configs('quick'))
